@@ -160,6 +160,9 @@ func (n UnixFSHAMTShard) loadChild(pbLink dagpb.PBLink) (UnixFSHAMTShard, error)
 	if err != nil {
 		return nil, err
 	}
+	if und.data.FieldFanout().Must().Int() != n.data.FieldFanout().Must().Int() {
+		return nil, fmt.Errorf("hamt child shard fanout (%d) does not match its parent's (%d)", und.data.FieldFanout().Must().Int(), n.data.FieldFanout().Must().Int())
+	}
 	n.shardCache[pbLink.FieldHash().Link()] = und
 	return und, nil
 }
